@@ -33,6 +33,7 @@ def parse : List String → Option Ev
   | ["kill"] => some .kill
   | ["dial", "ok"] => some (.dial true)
   | ["dial", "fail"] => some (.dial false)
+  | ["dial", "cut"] => some (.dial false)   -- the link drops during the connect handshake: a failed attempt like any other
   | ["backoff"] => some .backoff
   | ["resume", sid, "ok"] => some (.resume (nat sid) .ok)
   | ["resume", sid, "refused"] => some (.resume (nat sid) .refused)
